@@ -338,7 +338,8 @@ pub fn run_sharded_with(ctx: &Ctx, nshards: u64, threads: usize, prefix: &[Strin
 }
 
 pub fn run_sharded(ctx: &Ctx, nshards: u64, threads: usize, _exe: Option<&str>, extra_env: &[(String, String)], tag: &str) -> (Local, Vec<ShardEnd>) {
-    let timeout = if ctx.tier == Tier::Quick { 600 } else { 7200 };
+    // generous multiples of the normal run time (quick ~5 s, thorough ~2-3 min)
+    let timeout = if ctx.tier == Tier::Quick { 240 } else { 1800 };
     run_sharded_with(ctx, nshards, threads, &[], extra_env, tag, timeout)
 }
 
